@@ -306,8 +306,14 @@ func cpCase(t *tr.W, r *rand.Rand, scenario string) {
 	if scenario == "false-partial" {
 		nInt = 3 + r.Intn(2)
 	}
+	if scenario == "liars-apart" {
+		nInt = 4 + r.Intn(2)
+	}
 	l0 := nInt*interval + r.Intn(300)
 	np := 1 + r.Intn(4)
+	if scenario == "liars-apart" {
+		np = 3 + r.Intn(2)
+	}
 	disc := r.Intn(2) == 0
 	d := 0
 	if disc {
@@ -332,6 +338,33 @@ func cpCase(t *tr.W, r *rand.Rand, scenario string) {
 		for p := 1; p <= np; p++ {
 			vs = append(vs, w.mkview(p, "honest", 0, ""))
 		}
+	case "liars-apart":
+		// an honest peer and liars forging in DIFFERENT checkpoint intervals, more
+		// than one query window apart; the first liar serves no filter for its lie
+		f0 = r.Intn(2) * (1 + r.Intn(interval-1))
+		a := r.Intn(nInt - 2)
+		b := a + 2 + r.Intn(nInt-a-2)
+		ids := r.Perm(np)
+		for i, k := range ids {
+			p := k + 1
+			switch i {
+			case 0:
+				vs = append(vs, w.mkview(p, "honest", 0, ""))
+			case 1:
+				lie := a*interval + 1 + r.Intn(interval)
+				if lie <= f0 {
+					lie = f0 + 1
+				}
+				v := w.mkview(p, "hliar", lie, "omit")
+				v.noFilt[lie] = true
+				vs = append(vs, v)
+			case 2:
+				vs = append(vs, w.mkview(p, "hliar", b*interval+1+r.Intn(interval), "omit"))
+			default:
+				vs = append(vs, w.mkview(p, "honest", 0, ""))
+			}
+		}
+		t.Hit("cp.liars-apart")
 	case "store-disagrees":
 		// (c) the store holds a false chain beyond a checkpoint; all peers agree with each other
 		f0 = interval + 500
@@ -404,11 +437,28 @@ func cpCase(t *tr.W, r *rand.Rand, scenario string) {
 	w.prefillHdrs(pre[:f0+1])
 	t.Op(fmt.Sprintf("init %s fs %s", ints(ids), ints(pre[:f0+1])), "- | "+w.dump())
 	w.sanityOp(vs)
-	for round := 0; round < 2; round++ {
-		good := w.resolveOp(vs, disc)
+	rounds := 2
+	if scenario == "liars-apart" {
+		rounds = 4
+	}
+	for round := 0; round < rounds; round++ {
+		cur := vs
+		if scenario == "liars-apart" {
+			// the retry of cfHandler asks the peers that are still connected
+			cur = nil
+			for _, v := range vs {
+				if !w.v.IsBanned(addr(v.id)) {
+					cur = append(cur, v)
+				}
+			}
+			if len(cur) == 0 {
+				break
+			}
+		}
+		good := w.resolveOp(cur, disc)
 		if good == nil {
-			if scenario == "store-disagrees" {
-				continue // the retry of cfHandler: same answer, store untouched
+			if scenario == "store-disagrees" || scenario == "liars-apart" {
+				continue // the retry of cfHandler
 			}
 			break
 		}
